@@ -53,8 +53,14 @@ class C14(Property):
                 # cipher configuration of the whole mesh: the usual list, unencrypted only ("plain" on every node: the connection
                 # objects then never get a crypto core), or plain allowed next to ciphers
                 algos = rng.choice([nu.ALG, nu.ALG, "p|-", "p|1:44160000,3:43c80000"])
+                # now and then one node (often the best connected one) has a lasting fault in a late housekeeping step - whatever is
+                # behind that step is starved, the peer exchange must not be
+                faulty = 0
+                if not any(nat) and rng.random() < 0.3:
+                    deg = {i: sum(1 for e in edges if i in e) for i in range(1, n + 1)}
+                    faulty = max(deg, key=lambda i: (deg[i], rng.random()))
                 for i in range(1, n + 1):
-                    s.node(i, mode="tun-router", claims=["%s/24" % bytes([10, 0, i, 0]).hex()], nat=nat[i], algos=algos)
+                    s.node(i, mode="tun-router", claims=["%s/24" % bytes([10, 0, i, 0]).hex()], nat=nat[i], algos=algos, hkf=(i == faulty))
                 for (a, b), o in zip(edges, orients):
                     # an address-filtering NAT only lets replies in: the NATed end has to dial; two NATed ends dial each other
                     if nat[a] and not nat[b]:
@@ -125,7 +131,7 @@ class C14(Property):
         return nu.model_line(line, impl_out)
 
     def canon_impl(self, line, out):
-        return nu.canon_impl(out)
+        return nu.canon_impl(nu.strip_hkerr(line, out))
 
     def nontrivial(self, line, impl_out):
         return True
